@@ -131,7 +131,7 @@ def main():
     chk.assume("RNG stub: random.randint / RandState.rng.randint return an arbitrary integer within [low, high] (their contract); uniformity of the "
                "real generator is assumed, not checked", *e3.STANDIN_NOTES)
     t = tier()
-    nmax = 3 if t == "quick" else 4
+    nmax = 3 if t == "quick" else 5
     chk.bound("(a) 7 weight lists x 6 accompanying constraint sets x 3 assignments of the weight fields x 2 call kinds; (b) 2..%d symbolic weights "
               "in [0, 2^40], two symbolic draws; (c) widths {1,2,7,8,9,16,32,33,63,64} x signedness" % nmax)
     chk.extra["rule"] = "one evaluation = one call decided / one selection harness explored over all paths / one kernel configuration"
